@@ -21,8 +21,10 @@ reg(Prop(
          '(thorough 0..10), positions int/long/long long. Neighbours: lattice x lattice positions. iterator::range/make_range/'
          'adapt_range: all sub-ranges [i,j) of containers of length 0..6 (thorough 0..10), elements compared by address. '
          'distinct = canonical hash of (entry, row/chunk contents | enum,s,e | len,pad,start | origin,dist).'
-         ' cyclic_iterator over a bidirectional iterator whose ++ / -- throw at every point of every 5-step direction pattern: the iterator stays inside its boundary and keeps cycling. Enums that fill uint8_t / uint16_t / the positive side of int8_t: sub-ranges ending at the maximum (a sub-range whose enumerator count is not representable in the enum\'s size_type is not judged).',
+         ' cyclic_iterator over a bidirectional iterator whose ++ / -- throw at every point of every 5-step direction pattern: the iterator stays inside its boundary and keeps cycling. Enums that fill uint8_t / uint16_t / the positive side of int8_t: sub-ranges ending at the maximum (a sub-range whose enumerator count is not representable in the enum\'s size_type is not judged).'
+         ' iterator::range == / != between every pair of sub-ranges of the same container.',
     assumptions=COMMON_ASSUMPTIONS + [
+        'an enum sub-range is judged when its enumerator count is representable in the enum\'s size_type (the whole range of an enum that fills its underlying type is not: fcppt::enum_::size is 0 for it)',
         'int_range::size() is judged only when the number of elements is representable in the range\'s own integer type (side condition of the statement); for int and wider types it is not even called otherwise because end - begin overflows (undefined)',
         'ranges with more elements than the prefix bound are judged on their first 40 (quick) / 300 (thorough) elements only; termination at e is then not observed',
         'enum ranges are judged for closed sub-ranges s <= e only; enum_::range::size(), cyclic iterator difference/ordering, range::size, math::int_range_count and the iterator::base operator set are observed, not judged',
